@@ -143,12 +143,13 @@ func (d *txDeco) GetByIndex(ctx context.Context, index configapi.Index) (*config
 func (d *txDeco) write(kind string, t *configapi.Transaction, f func() error) error {
 	d.inc.gate(kind, true)
 	snap := cloneTx(t)
+	start := d.inc.w.nextSeq()
 	err := f()
 	if err == nil {
 		snap.Version = t.Version
 		snap.Index = t.Index
 	}
-	d.inc.w.logEvent(&Event{Kind: kind, OK: err == nil, Err: errStr(err), Tx: snap, Inc: d.inc.N})
+	d.inc.w.logEvent(&Event{Kind: kind, OK: err == nil, Err: errStr(err), Tx: snap, Inc: d.inc.N, StartSeq: start})
 	return err
 }
 func (d *txDeco) Create(ctx context.Context, t *configapi.Transaction) error {
